@@ -40,7 +40,7 @@ def _programs(thorough: bool) -> list[tuple[str, str, list[list[Any]]]]:
     for i, (fam, prog) in enumerate(gen_extra(thorough)):
         out.append(("general", fam, prog))
     for i, (fam, prog) in enumerate(gen_flat(thorough)):
-        if thorough or i % 2 == 0 or fam.count("+") == 0:
+        if thorough or i % 2 == 0 or fam.count("+") == 0 or "caseless-" in fam or fam.startswith("flat:alias"):
             out.append(("flat", fam, prog))
     return out
 
